@@ -55,6 +55,9 @@ type World struct {
 	scribbleObs  bool   // the harness overwrites every value its own observations obtain
 	lastGoodEnc  []byte // the encoding the last successful decode was given
 	lastGoodObs  string // ... and what it decoded to
+	lastBadEnc   []byte // the encoding the last failed decode was given
+	lastBadKind  string
+	decBuf       [80]byte // a caller's long-lived input buffer, reused for many decodes
 	mutatedSince bool
 
 	// which (byte position, nibble, index 0..15) windows the constant-time
